@@ -11,6 +11,7 @@ import QiVerif.Driver.C10
 import QiVerif.Driver.C11
 import QiVerif.Driver.C06
 import QiVerif.Driver.C04
+import QiVerif.Driver.C13
 open QiVerif.Driver
 
 /-- parameters handed over by ./check from the regenerated constants -/
@@ -24,6 +25,7 @@ structure DState where
   cl : QiVerif.Client.W := {}
   au : C06.St := {}
   sv : C04.St := {}
+  sg : C13.St := {}
 
 def dispatch (p : Params) (st : DState) (line : String) : DState × String :=
   let ws := words line
@@ -47,6 +49,9 @@ def dispatch (p : Params) (st : DState) (line : String) : DState × String :=
     else if op.startsWith "sv." || op.startsWith "c04." then
       let (s', out) := C04.run st.sv ws
       ({ st with sv := s' }, out)
+    else if op.startsWith "sg." then
+      let (s', out) := C13.run st.sg ws
+      ({ st with sg := s' }, out)
     else if op.startsWith "au." then
       let (s', out) := C06.run st.au ws
       ({ st with au := s' }, out)
